@@ -1,10 +1,95 @@
-import IgrisModel.C17.Model
+/-
+  C17 — PROPERTY THEOREMS (statements only use definitions from Model.lean;
+  helper lemmas live in Lemmas.lean).
+
+  Property: "For every byte string and seed, the table-driven and bit-serial
+  CRC-8 return identical values, and each CRC routine equals an independent
+  reference of the same polynomial, bit order and seed.  Feeding data in pieces
+  with the running value as seed gives the one-shot result, and the streaming
+  CRC-8 of a message followed by its own CRC is 0.  No routine reads a byte
+  outside [data, data+length) or needs an aligned buffer."
+-/
+import IgrisModel.C17.Lemmas
 namespace Igris.C17
 open Igris.Proto
 
-/-- Feeding data in pieces with the running value as seed gives the one-shot result. -/
+/-- table-driven Dallas CRC-8 = bit-serial Dallas CRC-8, all seeds, all messages -/
+theorem crc8_table_eq_serial (data : List Byte) (seed : BitVec 8) :
+    crc8Table data seed = crc8 data seed := by
+  unfold crc8Table crc8
+  induction data generalizing seed with
+  | nil => rfl
+  | cons b bs ih => simp only [List.foldl_cons, tblStep_eq_dowStep, ih]
+
+/-! chaining: feeding data in pieces with the running value as seed -/
+
 theorem strmcrc8_chain (seed : BitVec 8) (a b : List Byte) :
     strmcrc8 seed (a ++ b) = strmcrc8 (strmcrc8 seed a) b := by
   simp [strmcrc8, List.foldl_append]
+
+theorem crc8_chain (seed : BitVec 8) (a b : List Byte) :
+    crc8 (a ++ b) seed = crc8 b (crc8 a seed) := by
+  simp [crc8, List.foldl_append]
+
+theorem crc8Table_chain (seed : BitVec 8) (a b : List Byte) :
+    crc8Table (a ++ b) seed = crc8Table b (crc8Table a seed) := by
+  simp [crc8Table, List.foldl_append]
+
+theorem crc16_chain (seed : BitVec 16) (a b : List Byte) :
+    crc16 (a ++ b) seed = crc16 b (crc16 a seed) := by
+  simp [crc16, List.foldl_append]
+
+/-- the streaming CRC-8 of a message followed by its own CRC is 0 -/
+theorem strmcrc8_residue (seed : BitVec 8) (m : List Byte) :
+    strmcrc8 seed (m ++ [strmcrc8 seed m]) = 0#8 := by
+  rw [strmcrc8_chain]
+  simp only [strmcrc8, List.foldl_cons, List.foldl_nil, strmStep, BitVec.xor_self]
+  decide
+
+/-- The (repaired) CRC-32 never faults when exactly `[0, length)` is mapped,
+and its value is a function of those bytes only: the word-wise definition
+`crc32Words`. -/
+theorem crc32_reads_in_range (mem : List Byte) (length : Nat) (seed : BitVec 32)
+    (h : length ≤ mem.length) :
+    crc32 mem length seed = some (crc32Words (mem.take length) seed) :=
+  crc32_in_bounds' mem length seed h
+
+/-- in particular on an exactly sized buffer -/
+theorem crc32_exact_buffer (data : List Byte) (seed : BitVec 32) :
+    crc32 data data.length seed = some (crc32Words data seed) := by
+  have := crc32_reads_in_range data data.length seed (Nat.le_refl _)
+  simpa using this
+
+/-
+  FULL STATEMENT (false on the tree, see `crc32_chain_witness`):
+     ∀ a b seed, crc32Words (a ++ b) seed = crc32Words b (crc32Words a seed)
+  Proved part: split points that are a multiple of four.
+  Recorded finding: C17-crc32-split.
+-/
+theorem crc32_chain_partial (seed : BitVec 32) (a b : List Byte) (h : a.length % 4 = 0) :
+    crc32Words (a ++ b) seed = crc32Words b (crc32Words a seed) := by
+  induction hn : a.length using Nat.strongRecOn generalizing a seed with
+  | _ n ih =>
+    match a, h with
+    | [], _ => simp [crc32Words]
+    | [_], h => simp at h
+    | [_, _], h => simp at h
+    | [_, _, _], h => simp at h
+    | b0 :: b1 :: b2 :: b3 :: rest, h =>
+      simp only [List.cons_append, crc32Words_four]
+      subst hn
+      exact ih rest.length (by simp only [List.length_cons]; omega) _ rest (by simp at h; omega) rfl
+
+/-- the model violates chaining at a split point that is not a multiple of 4 -/
+theorem crc32_chain_witness :
+    crc32Words ([1#8] ++ [2#8]) 0#32 ≠ crc32Words [2#8] (crc32Words [1#8] 0#32) := by
+  decide +kernel
+
+/-- historical: the routine as it was before `fix: igris_crc32 reads the tail
+byte-wise` faults on a 1-byte buffer (whole-word tail load) -/
+theorem crc32Orig_overread_witness : crc32Orig [0#8] 1 0#32 = none := by decide
+
+-- non-vacuity of `crc32_chain_partial`'s hypothesis
+example : ([1#8, 2#8, 3#8, 4#8] : List Byte).length % 4 = 0 := by decide
 
 end Igris.C17
